@@ -37,6 +37,33 @@ def shape_ok(src, names):
     return int(ok(tree))
 
 
+def shown(s):
+    """the characters of a terminal string, each with the SGR state it is displayed under (a small interpreter over the
+    lexed tokens: 0 resets, 39 / 49 reset a colour, 22.. are not produced by the library)"""
+    st = [0] * 8
+    out = []
+    for tok in enc.lex(s):
+        if tok[0] == "t":
+            out.append([tok[1]] + list(st))
+        elif tok[0] == "m":
+            for p in (tok[1] or [0]):
+                if p == 0:
+                    st = [0] * 8
+                elif 30 <= p <= 37:
+                    st[0] = p - 29
+                elif p == 39:
+                    st[0] = 0
+                elif 40 <= p <= 47:
+                    st[1] = p - 39
+                elif p == 49:
+                    st[1] = 0
+                elif p in (1, 2, 3, 4, 5, 7):
+                    st[2 + (1, 2, 3, 4, 5, 7).index(p)] = 1
+        else:
+            out.append([-1] + list(st))
+    return out
+
+
 def spelled(v):
     """the operand of an eq case; kind "r" is a plain str spelling the formatting of a value in escape sequences"""
     import re
@@ -183,6 +210,11 @@ class C19(PureCheck):
             for j in range(len(l) + 1):
                 for seen in (1, 0):
                     yield {"op": "repr", "f": l, "plus": j, "seen": seen}
+        # styles switched on with truthy values other than True
+        for tv in (1, 2, 3):
+            for l in ([[[51, 32, 101], [0, 0, 2, 0, 0, 0, 0, 0]]], [[[97], [2, 0, 0, 0, 0, 2, 0, 0]], [[98], list(fmtlib.PLAIN)]],
+                      [[[97, 98], [0, 5, 2, 0, 0, 0, 0, 2]]], [[[120], list(ATTS[1])], [[121], [0, 0, 0, 2, 0, 0, 0, 0]]]):
+                yield {"op": "repr", "f": l, "truthy": tv}
         for t in REPR_TEXTS:
             for a in ATTS + [[8, 1, 2, 2, 2, 2, 2, 2]]:
                 yield {"op": "repr", "f": [[[ord(c) for c in t], a]]}
@@ -235,6 +267,11 @@ class C19(PureCheck):
                     repr(left), str(left), repr(right), str(right)
                 f = left + right
                 ev["f"] = enc.enc_fmtstr(f)
+            elif inp.get("truthy"):
+                # styles switched on with a truthy value that is neither True nor 1 (a count, a non-empty string)
+                from curtsies.formatstring import FmtStr, Chunk
+                val = [3, "yes", 2.5][inp["truthy"] - 1]
+                f = FmtStr(*(Chunk(enc.dec_text(t), {k: (val if v is True else v) for k, v in enc.dec_atts(a).items()}) for t, a in inp["f"]))
             else:
                 f = enc.build_fmtstr(inp["f"])
             ns = fmtfuncs_ns()
@@ -243,7 +280,13 @@ class C19(PureCheck):
             ev["shape"] = shape_ok(src, set(ns))
             g = dict(ns)
             g["__builtins__"] = {}
-            ev["ev"] = fmtlib.enc_res(lambda: eval(src, g))
+            got = []
+            ev["ev"] = fmtlib.enc_res(lambda: (got.append(eval(src, g)), got[-1])[1])
+            # what the value and what its evaluated repr display: characters with the graphic state they are shown under
+            ev["fshows"] = shown(str(f))
+            ev["evshows"] = shown(str(got[-1])) if got else []
+            if inp.get("truthy"):
+                ev["f"] = inp["f"]          # a style stored as 3 / "yes" is a style that is on
         return ev
 
     def classify(self, ev):
